@@ -1,4 +1,4 @@
-CONSTANT Docs = {1, 2}
+CONSTANT Docs = {1}
 CONSTANT Names <- N12
 CONSTANT Contents = {1, 2}
 CONSTANT MaxSteps = 4
